@@ -100,13 +100,19 @@ func genHistory(r *rand.Rand, id string, mode string, plain bool) Case {
 				if r.Intn(8) == 0 && mode == "real" {
 					h.Ops = append(h.Ops, Op{Op: "addbin", Path: np})
 					w.live[np] = -1
+				} else if r.Intn(9) == 0 { // a symbolic link: ` create mode 120000 path`, one added line (the target)
+					h.Ops = append(h.Ops, Op{Op: "addlink", Path: np, Add: 1})
+					w.live[np] = -1
 				} else {
-					h.Ops = append(h.Ops, Op{Op: "add", Path: np, Add: lines})
+					h.Ops = append(h.Ops, Op{Op: "add", Path: np, Add: lines, Exec: r.Intn(5) == 0}) // an executable file: mode 100755
 					w.live[np] = lines
 				}
 				touched[np] = true
 			case touched[p]:
 				continue
+			case k <= 5 && w.live[p] > 0 && r.Intn(8) == 0: // only the executable bit changes
+				h.Ops = append(h.Ops, Op{Op: "chmod", Path: p})
+				touched[p] = true
 			case k <= 5 && w.live[p] > 0:
 				del := r.Intn(w.live[p])
 				add := r.Intn(4)
@@ -226,6 +232,20 @@ func manyFiles(r *rand.Rand, id string) Case {
 	return c
 }
 
+// genOrder: half of the histories request their summaries in another order than the default one, a third of those
+// request one of them twice
+func genOrder(r *rand.Rand) []string {
+	if r.Intn(2) == 0 {
+		return []string{}
+	}
+	o := append([]string{}, defaultOrder...)
+	r.Shuffle(len(o), func(i, j int) { o[i], o[j] = o[j], o[i] })
+	if r.Intn(3) == 0 {
+		o = append(o, o[r.Intn(len(o))])
+	}
+	return o
+}
+
 func gen(seed int64, n int, tier string) []interface{} {
 	r := rand.New(rand.NewSource(seed))
 	var out []interface{}
@@ -235,7 +255,9 @@ func gen(seed int64, n int, tier string) []interface{} {
 			if k%10 == 9 {
 				mode = "real"
 			}
-			out = append(out, sortCase(r, fmt.Sprintf("sort-%d-%d", seed, k), mode))
+			sc := sortCase(r, fmt.Sprintf("sort-%d-%d", seed, k), mode)
+			sc.Order = genOrder(r)
+			out = append(out, sc)
 			continue
 		}
 		mode := "real"
@@ -248,6 +270,7 @@ func gen(seed int64, n int, tier string) []interface{} {
 		}
 		h := genHistory(r, fmt.Sprintf("rand-%d-%d", seed, k), mode, k%4 == 0)
 		h.Tables = mode == "real" && r.Intn(3) == 0
+		h.Order = genOrder(r)
 		out = append(out, h)
 	}
 	return out
